@@ -22,8 +22,8 @@ import (
 )
 
 var vc25apiKeys = []string{"a", "b", "name", "x1", "k-2", "Cap_s"}
-var vc25apiRows = []uint64{0, 1, 2, 99, 100, 101, 200}
-var vc25apiCols = []uint64{0, 1, 2, 99, 100, 101, pilosa.ShardWidth, pilosa.ShardWidth + 1}
+var vc25apiRows = []uint64{0, 1, 99, 100}
+var vc25apiCols = []uint64{0, 1, 99, 100, pilosa.ShardWidth + 1}
 
 type vc25apiKV struct {
 	K    string
@@ -232,10 +232,10 @@ func TestVerifC25_API(t *testing.T) {
 			vc25apiTrash(row.Attrs)
 		}
 
-		nOps := rapid.IntRange(1, 14).Draw(t, "nOps")
+		nOps := rapid.IntRange(2, 18).Draw(t, "nOps")
 		for i := 0; i < nOps; i++ {
 			label := fmt.Sprintf("op%d", i)
-			switch rapid.SampledFrom([]string{"write", "write", "write", "bulk", "mixed", "row", "row", "colattrs", "exclude", "restart"}).Draw(t, label) {
+			switch rapid.SampledFrom([]string{"write", "write", "write", "write", "bulk", "mixed", "mixed", "row", "row", "colattrs", "colattrs", "exclude", "restart"}).Draw(t, label) {
 			case "write":
 				q := genWrite(label, []string{"rowattrs", "rowattrs", "colattrs", "colattrs", "set", "set"})
 				trace = append(trace, q)
@@ -287,6 +287,19 @@ func TestVerifC25_API(t *testing.T) {
 			case "colattrs":
 				f := rapid.SampledFrom([]string{"f", "g"}).Draw(t, label+"_f")
 				r := rapid.SampledFrom(vc25apiRows).Draw(t, label+"_r")
+				// prefer a row that holds bits (otherwise the attribute-set list is trivially empty)
+				var cands [][2]interface{}
+				for _, ff := range []string{"f", "g"} {
+					for _, rr := range vc25apiRows {
+						if len(md.bits[ff][rr]) > 0 {
+							cands = append(cands, [2]interface{}{ff, rr})
+						}
+					}
+				}
+				if len(cands) > 0 && rapid.IntRange(0, 3).Draw(t, label+"_pref") > 0 {
+					pick := cands[rapid.IntRange(0, len(cands)-1).Draw(t, label+"_pick")]
+					f, r = pick[0].(string), pick[1].(uint64)
+				}
 				q := fmt.Sprintf("Options(Row(%s=%d), columnAttrs=true)", f, r)
 				trace = append(trace, q)
 				for k := 0; k < 2; k++ {
